@@ -61,6 +61,29 @@ func loop(c : Cmd, acc : int) -> int {
 }
 func main(n : int) -> int { loop(cmd(n), 0) }
 """ % rng.range(1, 9), dict(tail=True)))
+    out.append(("tail_paren", """
+func loop(n : int, acc : int) -> int { n == 0 ? acc : (loop(n - 1, (acc + %d) %% 65521)) }
+func main(n : int) -> int { loop(n, 0) }
+""" % rng.range(1, 9), dict(tail=True)))
+    out.append(("tail_constcond", """
+func loop(n : int, acc : int) -> int { n == 0 ? acc : (false ? 0 : loop(n - 1, (acc + %d) %% 65521)) }
+func loop2(n : int, acc : int) -> int { if (n == 0) { acc } else { true ? loop2(n - 1, (acc + 1) %% 65521) : 0 } }
+func main(n : int) -> int { loop(n, 0) + loop2(n, 0) }
+""" % rng.range(1, 9), dict(tail=True)))
+    out.append(("tail_pipe_scalar", """
+func loop(n : int, acc : int) -> int { n == 0 ? acc : ((n - 1) |> loop((acc * 31 + n) %% 1009)) }
+func main(n : int) -> int { loop(n, %d) }
+""" % rng.range(0, 9), dict(tail=True)))
+    out.append(("tail_pipe_tuple", """
+func loop(n : int, acc : int) -> int { n == 0 ? acc : ((n - 1, (acc * 31 + n) %% 1009) : (int, int) |> loop()) }
+func main(n : int) -> int { loop(n, %d) }
+""" % rng.range(0, 9), dict(tail=True)))
+    out.append(("tail_pipe_tuple_arg", """
+func loop(n : int, acc : int, k : int) -> int {
+    if (n == 0) { acc } else { let next = (n - 1, (acc * k + n) %% 1009) : (int, int); next |> loop(k) }
+}
+func main(n : int) -> int { loop(n, 0, %d) }
+""" % rng.range(2, 9), dict(tail=True)))
     out.append(("tail_alloc", """
 func loop(n : int, s : string, acc : int) -> int { n == 0 ? acc + length(s) : loop(n - 1, "x" + n, acc + length(s) % 7) }
 func main(n : int) -> int { loop(n, "", 0) }
@@ -81,7 +104,31 @@ func main(n : int) -> int { rec(%s) %% 100003 }
     ("widerec_w8", """
 func wide(%s, h : int, n : int) -> int { n <= 0 ? a0 + h : 1 + wide(%s, h, n - 1) }
 func main(n : int) -> int { wide(%s, 4, n) }
-""" % (", ".join("a%d : int" % i for i in range(8)), ", ".join("a%d" % max(0, i - 1) for i in range(8)), ", ".join(str(3 + i) for i in range(8))), dict(depth=True, wide=True, width=8))]
+""" % (", ".join("a%d : int" % i for i in range(8)), ", ".join("a%d" % max(0, i - 1) for i in range(8)), ", ".join(str(3 + i) for i in range(8))), dict(depth=True, wide=True, width=8)),
+    # a shallow recursion whose LEAF grows the stack through every kind of handler that does (tuple unpacked into a piped call,
+    # record destructuring in match / if-let, for-in, nested comprehension, a six-argument call, locals): C14 sweeps every stack
+    # size from well below the program's peak to just above it, so the limit is met inside each of these handlers in turn
+    ("leafy", """
+record P { x : int; y : int; z : int; }
+enum E { A { a : int; b : int; c : int; d : int; }, B }
+func sum5(a : int, b : int, c : int, d : int, e : int, f : int) -> int { a + b + c + d + e + f }
+func leaf(k : int) -> int {
+    let t = (1, 2, 3, 4, 5) : (int, int, int, int, int);
+    let p = P(1, 2, %d);
+    let e = E::A(1, 2, 3, %d);
+    let arr = [ 1, 2, 3, 4, 5, 6 ] : int;
+    var s = 0;
+    s = t |> sum5(6);
+    s = s + match e { E::A(a, b, c, d) -> a + b + c + d; E::B -> 0; };
+    s = s + (if let (E::A(a, b, c, d) = e) { a * b * c * d } else { 0 });
+    for (x in arr) { s = s + x };
+    let l = [ x * y | x in arr; y in arr; x == y ] : int;
+    s = s + l[0] + sum5(p.x, p.y, p.z, k, s %% 3, 1);
+    s
+}
+func down(n : int, k : int) -> int { n > 0 ? down(n - 1, k) + 1 : leaf(k) }
+func main(n : int) -> int { down(n > 3 ? 3 : n, 2) }
+""" % (rng.range(1, 9), rng.range(1, 9)), dict(depth=True, leaf=True, width=2))]
 
 def alloc_family(rng):
     out = []
@@ -330,6 +377,233 @@ func main(n : int) -> int { print(S::TWO + 0); print(A::X + 0); print(A::Y + 0);
 """, dict(shape=True, expect_out="2\r\n43\r\n44\r\n", expect_res="I0")))
     return out
 
+def _dim_den(extent, lo, hi, validate=False):
+    """positions a bound pair lo..hi denotes: lo, lo±1, …, hi.  A slice OF AN ARRAY is created without a test (a position outside
+    [0, extent) is refused when an element is read: the caller maps it to -1); a slice OF A SLICE / RANGE validates its bounds
+    against the index space at creation (validate=True: None = index_out_of_bounds for the whole slice)."""
+    if validate and not (0 <= lo < extent and 0 <= hi < extent):
+        return None
+    step = 1 if hi >= lo else -1
+    return list(range(lo, hi + step, step))
+
+def _el(m, pos, *ix):
+    """element of the nested list m at the array positions ix, -1 when any position is outside its extent"""
+    for p in ix:
+        if not (0 <= p < len(m)):
+            return -1
+        m = m[p]
+    return m
+
+def _bounds(rng, extent):
+    """a bound pair for an index space: mostly valid (ascending, descending or equal), sometimes one end outside"""
+    r = rng.range(0, 11)
+    lo, hi = rng.range(0, extent - 1), rng.range(0, extent - 1)
+    if r == 0:
+        hi = extent
+    elif r == 1:
+        lo = -1
+    elif r == 2:
+        hi = lo
+    return lo, hi
+
+def denote_family(rng):
+    """ranges and slices of 2 and 3 dimensions whose bounds are VARIABLES (parameters, locals), slices of slices; every element the
+    bounds denote, and one position beyond each end, is printed; expected text computed here from the denotation (row-major array,
+    lo..hi inclusive, descending when hi < lo, index_out_of_bounds -> -1).  Literal bounds make the emitter take another path
+    (nothing on the stack between the dimensions), so the same slices with variable bounds are a separate claim."""
+    out = []
+    P = lambda v: "%d\r\n" % v
+    # --- 2-D slice of an array, bounds passed as parameters / re-bound as locals
+    R, C = rng.range(2, 4), rng.range(2, 5)
+    k0 = rng.range(1, 7)
+    m = [[(r * 10 + c) * k0 + 1 for c in range(C)] for r in range(R)]
+    lit = "[ " + ", ".join("[ " + ", ".join(str(v) for v in row) + " ]" for row in m) + " ] : int"
+    calls, exp = [], []
+    for t in range(4):
+        (r0, r1), (c0, c1) = _bounds(rng, R), _bounds(rng, C)
+        fn = "at" if t % 2 == 0 else "atl"
+        calls.append("    for (i = 0; i <= %d; i = i + 1) { for (j = 0; j <= %d; j = j + 1) { print(%s(m, %d, %d, %d, %d, i, j)) } };" % (R, C, fn, r0, r1, c0, c1))
+        dr, dc = _dim_den(R, r0, r1), _dim_den(C, c0, c1)
+        for i in range(R + 1):
+            for j in range(C + 1):
+                exp.append(-1 if i >= len(dr) or j >= len(dc) else _el(m, 0, dr[i], dc[j]))
+    out.append(("shape_md_slice2", """
+func at(m[R, C] : int, r0 : int, r1 : int, c0 : int, c1 : int, i : int, j : int) -> int
+{
+    let s = m[r0 .. r1, c0 .. c1];
+    s[i, j]
+}
+catch (index_out_of_bounds) { 0 - 1 }
+func atl(m[R, C] : int, r0 : int, r1 : int, c0 : int, c1 : int, i : int, j : int) -> int
+{
+    let a = r0 + 0; let pad = i * 7; let b = r1 + 0; let c = c0 + 0; let d = c1 + 0;
+    let s = m[a .. b, c .. d];
+    s[i, j] + pad - i * 7
+}
+catch (index_out_of_bounds) { 0 - 1 }
+func main(n : int) -> int {
+    let m = %s;
+    var i = 0; var j = 0;
+%s
+    0
+}
+""" % (lit, "\n".join(calls)), dict(shape=True, idx=True, expect_out="".join(P(v) for v in exp), expect_res="I0")))
+    # --- 3-D slice
+    A, B, C3 = rng.range(2, 3), rng.range(2, 3), rng.range(2, 4)
+    q = [[[a * 100 + b * 10 + c + 1 for c in range(C3)] for b in range(B)] for a in range(A)]
+    lit3 = "[ " + ", ".join("[ " + ", ".join("[ " + ", ".join(str(v) for v in row) + " ]" for row in pl) + " ]" for pl in q) + " ] : int"
+    calls, exp = [], []
+    for t in range(3):
+        (a0, a1), (b0, b1), (c0, c1) = _bounds(rng, A), _bounds(rng, B), _bounds(rng, C3)
+        calls.append("    for (h = 0; h <= %d; h = h + 1) { for (i = 0; i <= %d; i = i + 1) { for (j = 0; j <= %d; j = j + 1) { print(at3(q, %d, %d, %d, %d, %d, %d, h, i, j)) } } };"
+                     % (A, B, C3, a0, a1, b0, b1, c0, c1))
+        da, db, dc = _dim_den(A, a0, a1), _dim_den(B, b0, b1), _dim_den(C3, c0, c1)
+        for h in range(A + 1):
+            for i in range(B + 1):
+                for j in range(C3 + 1):
+                    bad = h >= len(da) or i >= len(db) or j >= len(dc)
+                    exp.append(-1 if bad else _el(q, 0, da[h], db[i], dc[j]))
+    out.append(("shape_md_slice3", """
+func at3(m[P, R, C] : int, p0 : int, p1 : int, r0 : int, r1 : int, c0 : int, c1 : int, h : int, i : int, j : int) -> int
+{
+    let s = m[p0 .. p1, r0 .. r1, c0 .. c1];
+    s[h, i, j]
+}
+catch (index_out_of_bounds) { 0 - 1 }
+func main(n : int) -> int {
+    let q = %s;
+    var h = 0; var i = 0; var j = 0;
+%s
+    0
+}
+""" % (lit3, "\n".join(calls)), dict(shape=True, idx=True, expect_out="".join(P(v) for v in exp), expect_res="I0")))
+    # --- 2-D and 3-D ranges with variable bounds
+    calls, exp = [], []
+    def rden(a, b):
+        step = 1 if b >= a else -1
+        return list(range(a, b + step, step))
+    for t in range(3):
+        a, b, c, d = rng.range(-3, 9), rng.range(-3, 9), rng.range(10, 19), rng.range(10, 19)
+        da, dc = rden(a, b), rden(c, d)
+        ni, nj = min(len(da), 3), min(len(dc), 3)
+        idx = [(0, 0), (len(da) - 1, len(dc) - 1), (len(da), 0), (0, len(dc)), (ni - 1, nj - 1), (-1, 0)]
+        for (i, j) in idx:
+            calls.append("    print(rg(%d, %d, %d, %d, %d, %d));" % (a, b, c, d, i, j))
+            exp.append(-1 if not (0 <= i < len(da) and 0 <= j < len(dc)) else da[i] * 1000 + dc[j])
+    a, b, c, d, e, f = [rng.range(0, 6) for _ in range(6)]
+    da, dc, de = rden(a, b), rden(c, d), rden(e, f)
+    for (h, i, j) in [(0, 0, 0), (len(da) - 1, len(dc) - 1, len(de) - 1), (0, len(dc), 0), (len(da) - 1, 0, len(de) - 1)]:
+        calls.append("    print(rg3(%d, %d, %d, %d, %d, %d, %d, %d, %d));" % (a, b, c, d, e, f, h, i, j))
+        exp.append(-1 if not (0 <= h < len(da) and 0 <= i < len(dc) and 0 <= j < len(de)) else da[h] * 10000 + dc[i] * 100 + de[j])
+    out.append(("shape_md_range", """
+func rg(a : int, b : int, c : int, d : int, i : int, j : int) -> int
+{
+    let r = [ a .. b, c .. d ];
+    let e = r[i, j];
+    e[0] * 1000 + e[1]
+}
+catch (index_out_of_bounds) { 0 - 1 }
+func rg3(a : int, b : int, c : int, d : int, e : int, f : int, h : int, i : int, j : int) -> int
+{
+    let lo = a + 0;
+    let r = [ lo .. b, c .. d, e .. f ];
+    let x = r[h, i, j];
+    x[0] * 10000 + x[1] * 100 + x[2]
+}
+catch (index_out_of_bounds) { 0 - 1 }
+func main(n : int) -> int {
+%s
+    0
+}
+""" % "\n".join(calls), dict(shape=True, idx=True, expect_out="".join(P(v) for v in exp), expect_res="I0")))
+    # --- slice of a slice, both with variable bounds
+    R, C = rng.range(3, 4), rng.range(3, 5)
+    m = [[r * 10 + c + 5 for c in range(C)] for r in range(R)]
+    lit = "[ " + ", ".join("[ " + ", ".join(str(v) for v in row) + " ]" for row in m) + " ] : int"
+    calls, exp = [], []
+    for t in range(4):
+        (r0, r1), (c0, c1) = _bounds(rng, R), _bounds(rng, C)
+        dr, dc = _dim_den(R, r0, r1), _dim_den(C, c0, c1)
+        lr, lc = len(dr), len(dc)
+        (a, b), (c, d) = _bounds(rng, lr), _bounds(rng, lc)
+        er, ec = _dim_den(lr, a, b, True), _dim_den(lc, c, d, True)
+        calls.append("    for (i = 0; i <= %d; i = i + 1) { for (j = 0; j <= %d; j = j + 1) { print(sl2(m, %d, %d, %d, %d, %d, %d, %d, %d, i, j)) } };" % (lr, lc, r0, r1, c0, c1, a, b, c, d))
+        for i in range(lr + 1):
+            for j in range(lc + 1):
+                bad = er is None or ec is None or i >= len(er) or j >= len(ec)
+                exp.append(-1 if bad else _el(m, 0, dr[er[i]], dc[ec[j]]))
+    out.append(("shape_slice_of_slice2", """
+func sl2(m[R, C] : int, r0 : int, r1 : int, c0 : int, c1 : int, a : int, b : int, c : int, d : int, i : int, j : int) -> int
+{
+    let s = m[r0 .. r1, c0 .. c1];
+    let t = s[a .. b, c .. d];
+    t[i, j]
+}
+catch (index_out_of_bounds) { 0 - 1 }
+func main(n : int) -> int {
+    let m = %s;
+    var i = 0; var j = 0;
+%s
+    0
+}
+""" % (lit, "\n".join(calls)), dict(shape=True, idx=True, expect_out="".join(P(v) for v in exp), expect_res="I0")))
+    return out
+
+def effects_family(rng):
+    """operators with a LITERAL operand next to an operand that has a side effect: the effect happens (or, on the short-circuit side,
+    does not happen) exactly as the evaluation rules say, whatever an optimiser may know about the value"""
+    out = []
+    P = lambda v: "%d\r\n" % v
+    cnt = [0]; exp = []
+    def tick():
+        cnt[0] += 1; exp.append(cnt[0])
+    def side():
+        cnt[0] += 10; exp.append(cnt[0])
+    x = [rng.range(2, 9) for _ in range(10)]
+    tick(); tick(); tick(); tick()            # a b e f  (c, d are short-circuited)
+    for _ in range(10): side()
+    bits = 0 + 2 * 1 + 4 * 0 + 8 * 1 + 16 * 1 + 32 * 0
+    ssum = 0 + 0 + x[2] + x[3] + x[4] + x[5] + 0 + 0 + (x[8] - x[9])
+    exp.append(bits); exp.append(ssum)
+    out.append(("shape_literal_operand_effects", """
+var cnt = 0;
+func tick(v : bool) -> bool { cnt = cnt + 1; print(cnt); v }
+func side(v : int) -> int { cnt = cnt + 10; print(cnt); v }
+func b2i(b : bool) -> int { b ? 1 : 0 }
+func main(n : int) -> int {
+    let a = tick(true) && false;
+    let b = tick(false) || true;
+    let c = false && tick(true);
+    let d = true || tick(false);
+    let e = tick(true) && true;
+    let f = tick(false) || false;
+    let g = side(%d) * 0;
+    let h = 0 * side(%d);
+    let i = side(%d) + 0;
+    let j = side(%d) - 0;
+    let k = side(%d) * 1;
+    let l = side(%d) / 1;
+    let m = 0 / side(%d);
+    let o = side(%d) %% 1;
+    let p = side(%d) - side(%d);
+    print(b2i(a) + 2 * b2i(b) + 4 * b2i(c) + 8 * b2i(d) + 16 * b2i(e) + 32 * b2i(f));
+    print(g + h + i + j + k + l + m + o + p);
+    cnt
+}
+""" % tuple(x), dict(shape=True, expect_out="".join(P(v) for v in exp), expect_res="I%d" % cnt[0])))
+    # the name of the enclosing function re-bound inside its own body (local value, nested function) and called in tail position
+    a, b, c = rng.range(1, 9), rng.range(1, 9), rng.range(1, 9)
+    out.append(("shape_shadow_own_name", """
+func g3(a : int, b : int, c : int) -> int { a * 100 + b * 10 + c }
+func f(x : int) -> int { let f = g3; f(x, %d, %d) }
+func h(x : int) -> int { func h(a : int, b : int) -> int { a * 7 + b }; h(x, %d) }
+func k(x : int, y : int, z : int) -> int { let k = let func (a : int) -> int { a + 1 }; k(x + y + z) }
+func m(x : int, acc : int) -> int { x == 0 ? acc : { let m = g3; m(x, acc, %d) } }
+func w(x : int) -> int { x > 100 ? x : { func w(a : int, b : int) -> int { a + b }; w(x, 1000) } }
+func main(n : int) -> int { print(f(%d)); print(h(%d)); print(k(1, 2, %d)); print(m(2, 3)); print(w(%d)); 0 }
+""" % (b, c, b, c, a, a, a, a), dict(shape=True, expect_out=P(a * 100 + b * 10 + c) + P(a * 7 + b) + P(3 + a + 1) + P(230 + c) + P(a + 1000), expect_res="I0")))
+    return out
+
 def arith_family(rng):
     """typed operators and implicit conversions on RUN-TIME operands (function parameters, so nothing is folded): every line of
     output is computed here independently, with C's semantics (truncating division, sign of %, wrap-free ranges)"""
@@ -424,7 +698,7 @@ func main(n : int) -> int {
 }
 """ % (a, b, a, a), dict(api=True))]
 
-FAMILIES = [tail_family, deeprec_family, alloc_family, exc_family, idx_family, api_family, shapes_family, builtins_family, arith_family]
+FAMILIES = [tail_family, deeprec_family, alloc_family, exc_family, idx_family, api_family, shapes_family, builtins_family, arith_family, denote_family, effects_family]
 
 def generate(seed, rounds=1):
     rng = Rng(seed)
